@@ -1,0 +1,30 @@
+//go:build verif
+
+package keeper
+
+// Machine-checked contracts for the govc verifier (/verif). Comment-only; compiled only with -tags verif.
+
+// Mint for an app (C02, used by C11): exactly `amount` of the asset's denom is created and delivered to the receiver;
+// no other balance changes.
+//@ func (k Keeper) MintNewTokensForApp
+//@   property C02, C11
+//@   modular
+//@   modifies tokenmint, bank
+//@   let d = k.asset.GetAsset(ctx, assetID).0.Denom
+//@   let tm = modaddr("tokenmint")
+//@   requires #receiver: validaddr(address) ==> addr(address) != tm
+//@   ensures #c02-mint-exact: result == nil && amount > 0 ==> supply(d) == old(supply(d)) + amount && bal(addr(address), d) == old(bal(addr(address), d)) + amount
+//@   ensures #c02-mint-nothing: result == nil && amount <= 0 ==> supply(d) == old(supply(d)) && bal(addr(address), d) == old(bal(addr(address), d))
+//@   ensures #c02-mint-frame: result == nil ==> forall a, dd :: (a != addr(address) || dd != d) ==> bal(a, dd) == old(bal(a, dd))
+//@   ensures #c02-mint-supply-frame: result == nil ==> forall dd :: dd != d ==> supply(dd) == old(supply(dd))
+
+// Burn for an app (C02, used by C11): exactly `amount` of the asset's denom is destroyed out of the tokenmint module account.
+//@ func (k Keeper) BurnTokensForApp
+//@   property C02, C11
+//@   modular
+//@   modifies tokenmint, bank
+//@   let d = k.asset.GetAsset(ctx, assetID).0.Denom
+//@   let tm = modaddr("tokenmint")
+//@   ensures #c02-burn-exact: result == nil ==> amount > 0 && supply(d) == old(supply(d)) - amount && bal(tm, d) == old(bal(tm, d)) - amount
+//@   ensures #c02-burn-frame: result == nil ==> forall a, dd :: (a != tm || dd != d) ==> bal(a, dd) == old(bal(a, dd))
+//@   ensures #c02-burn-supply-frame: result == nil ==> forall dd :: dd != d ==> supply(dd) == old(supply(dd))
